@@ -137,13 +137,19 @@ FOLDS = ("to_uppercase", "to_ascii_uppercase", "to_lowercase", "to_ascii_lowerca
          "eq_ignore_ascii_case")
 
 
-def _folds(node):
+def _folds(node, tree=None, depth=0):
+    """case-folding methods used in `node`, following calls to private helpers of the parser (`Self::command_name(..)`) one level"""
     out = set()
 
     def v(n):
         for x in n.values():
             if isinstance(x, str) and x in FOLDS:
                 out.add(x)
+        if tree is not None and depth < 2 and n.get("k") == "Call" and isinstance(n.get("f"), dict) and n["f"].get("k") == "Path":
+            nm = n["f"]["p"].rsplit("::", 1)[-1]
+            if n["f"]["p"].startswith(("Self::", "Command::")) and nm not in HELPERS and not nm.startswith("extract_"):
+                for g in A.find_fn(tree, nm):
+                    out.update(_folds(g["body"], tree, depth + 1))
     A.walk(node, v)
     return out
 
@@ -336,7 +342,7 @@ def _r163(ck, tree):
     ck.extra["lua_commands"] = len(top2)
     ck.extra["resp_commands"] = len([k for k in t1 if "/" not in k and k != "_"])
     # the command name itself is folded the same way on both paths
-    fo1, fo2 = _folds(_frame(resp[0]["body"])), _folds(_frame(lua[0]["body"]))
+    fo1, fo2 = _folds(_frame(resp[0]["body"]), tree), _folds(_frame(lua[0]["body"]), tree)
     ck.check(fo1 == fo2 and len(fo1) == 1, "R16.3", "lua:command-name-folding",
              "the command name is case-folded with %s from a client and with %s from redis.call: a name that only one folding maps onto a "
              "command is a different command on the two paths" % (sorted(fo1), sorted(fo2)), "src/redis/executor/script_ops.rs:%d" % lua[0]["ln"],
